@@ -21,7 +21,7 @@ import (
 	"github.com/jamespfennell/gtfs/journal"
 )
 
-var c20IDs = []string{"%d23456_L..N0%d", "", "with space %d", " lead%d", "é%d-x", "1A 0%d23+ PEL/BBR", "a&b<c>'d%d;e=f|g\\h"}
+var c20IDs = []string{"%d23456_L..N0%d", "", "with space %d", " lead%d", "é%d-x", "1A 0%d23+ PEL/BBR", "a&b<c>'d%d;e=f|g\\h", "\tlead%d", "trail%d ", "\u00a0nbsp%d\u00a0"}
 
 func c20Gen(c *Ctx, maxTrips int) *journal.Journal {
 	j := &journal.Journal{}
@@ -55,13 +55,19 @@ func c20Gen(c *Ctx, maxTrips int) *journal.Journal {
 			NumScheduleChanges:  []int{10, -1, 0}[c.Choose(p+"changes", 3)] + 100*i,
 			NumScheduleRewrites: []int{20, -1, 0}[c.Choose(p+"rewrites", 3)] + 1000*i,
 		}
-		switch c.Choose(p+"startkind", 3) {
+		switch c.Choose(p+"startkind", 4) {
+		case 3:
+			t.StartTime = time.Unix(int64(1700000000+1000*i), 600_000_000).UTC()
+			t.LastObserved = time.Unix(int64(1700000500+1000*i), 999_000_000).In(zoneNY)
 		case 1:
 			t.StartTime = time.Time{}
 		case 2:
 			t.StartTime = time.Unix(0, 0).UTC()
 		}
-		switch c.Choose(p+"markedpast", 4) {
+		switch c.Choose(p+"markedpast", 5) {
+		case 4:
+			mp := time.Unix(int64(1700000900+1000*i), 750_000_000).UTC()
+			t.MarkedPast = &mp
 		case 1:
 			mp := time.Unix(int64(1700000900+1000*i), 0).UTC()
 			t.MarkedPast = &mp
@@ -95,8 +101,8 @@ func c20Gen(c *Ctx, maxTrips int) *journal.Journal {
 				st.Track = &v
 			}
 			optTime := func(label string, base int64, basePresent bool) *time.Time {
-				k := c.Choose(label, 4)
-				if !basePresent {
+				k := c.Choose(label, 6)
+				if !basePresent && k < 4 {
 					k = []int{1, 0, 2, 3}[k]
 				}
 				switch k {
@@ -108,6 +114,12 @@ func c20Gen(c *Ctx, maxTrips int) *journal.Journal {
 					return &v
 				case 3:
 					v := time.Unix(-7, 0).UTC()
+					return &v
+				case 4:
+					v := time.Unix(base, 500_000_000).UTC() // Unix seconds are the floor, not the nearest
+					return &v
+				case 5:
+					v := time.Unix(base, 999_999_999).In(zoneNY)
 					return &v
 				}
 				return nil
@@ -299,7 +311,7 @@ func init() {
 	register(&Check{
 		ID:    "C20",
 		Level: "model_checking",
-		Rule: "journals with 0..2 (thorough 0..3) trips x 0..2 stop times per trip (full product over the counts) x k deviations (quick 2, thorough 3) over presence of track/arrival/departure/marked-past, direction (0/1/unspecified/out-of-range), id shapes (NYCT-like, empty, spaces, leading space, non-ASCII, characters such as + & < > ' ; | \\ that are special in other formats but not in CSV), counters (negative, zero, large), zero start times; journals of 7..4099 trips (around powers of two, not multiples of 8) x 4 patterns of stop times per trip; " +
+		Rule: "journals with 0..2 (thorough 0..3) trips x 0..2 stop times per trip (full product over the counts) x k deviations (quick 2, thorough 3) over presence of track/arrival/departure/marked-past, direction (0/1/unspecified/out-of-range), id shapes (NYCT-like, empty, spaces, leading space, non-ASCII, characters such as + & < > ' ; | \\ that are special in other formats but not in CSV), counters (negative, zero, large), zero start times, instants with sub-second parts of 0.5 s and more; journals of 7..4099 trips (around powers of two, not multiples of 8) x 4 patterns of stop times per trip; " +
 			"non-trivial = distinct journals with at least one trip; oracle = read back with encoding/csv by header name, cell-by-cell, journal dumped before/after",
 		Assumptions: []string{"ids and tracks are free of comma, double quote, CR and LF, as the property stipulates", "header names of the two tables are part of the observable interface"},
 		Scenarios: func(tier string) []*Scenario {
